@@ -23,7 +23,7 @@ func init() {
 		g(c, "gQuorumJoint", gQuorumJoint)
 		g(c, "c10Hup", c10Hup)
 		g(c, "c10Gate", c10Gate) // one configuration change at a time: electorates of consecutive configurations overlap
-		g(c, "gRoute", gRoute) // a granted vote leaves the node only behind the write that records it
+		g(c, "gRoute", gRoute)   // a granted vote leaves the node only behind the write that records it
 	}})
 	register(&PropertyRule{ID: "C12", Explain: "structural necessary conditions of C12 (quorum arithmetic): see DESIGN.md §5 C12", Run: func(c *Check) {
 		g(c, "c12Quorum", c12Quorum)
